@@ -30,6 +30,14 @@ Sub-spaces
            8 integers or pairs); a malformed cell is reported as failure sub 'table', behaviour 'malformed-row' and
            its row is left out of the reference (so the parser's reading of a broken row is never "expected")
 
+Robustness against a library whose parses corrupt shared state (e.g. cached exponent objects mutated in place):
+every accepted string in which a spelling occurs twice is followed by a re-parse of those atoms alone (with the
+exponent as written and negated) - they must still mean what the tables say (behaviour 'atom-changed-by-earlier-parse',
+replayable because the case carries the string); a fixed probe set (m with every exponent spelling) is re-parsed
+every 1000 cases; observed exponents beyond +-10^4 are a failure at once.  After the first such finding the worker
+stops executing cases (counted as not-executed:library-state-corrupted) instead of feeding an ever more corrupted
+library - a violation is reported quickly, never a hang.
+
 History dimension: every string that must be rejected is parsed four times in the same process (BaseUnits twice,
 Quantity(1, .) twice) and has to be rejected every time; every string that must be accepted is parsed by BaseUnits and
 again by Quantity and both results are compared.  replay() executes the case in a fresh interpreter, so a record
@@ -77,6 +85,8 @@ N_CANCEL_SHARDS = 8
 RTOL = 1e-12
 
 _REF = None
+_POISONED = False        # this process has seen the library corrupt its own state: stop executing cases
+EXP_BOUND = 10 ** 4
 
 
 PSEUDO_NUMBERS = ["inf", "nan", "infinity", "Infinity", "NaN", "INF", "1_0", "1_000", "\uff11\uff12", "\u0661\u0662"]
@@ -344,6 +354,11 @@ def check_case(case):
                        tags=tags, behaviour="raises:" + ob[1])
     b = ob[1]
     tol = RTOL * nterm
+    big = _exponent_out_of_bounds(b)
+    if big:
+        _poison()
+        return failure(sub, case, dict(factor=efac, dims=_dims_json(edims)), dict(exponent=big), tags=tags,
+                       behaviour="exponent-out-of-bounds")
     # factor and dimensions assigned by the parser (numeric factors are not kept by BaseUnits: not compared there)
     odims = outcome(lambda: units_ref.dims_from_library(b.dimensions.value()))
     if odims[0] == "err":
@@ -400,6 +415,63 @@ def check_case(case):
     if not units_ref.close(oqv[1][0], etot, tol):
         return failure(sub, case, etot, dict(total=oqv[1][0], quantity=str(q)), tags=tags + ["via-quantity"],
                        behaviour="wrong-factor")
+    # a parse must not change what its atoms mean afterwards (shared exponent objects, caches ...)
+    names = [t for t, _ in terms]
+    for t, e in terms:
+        if names.count(t) < 2:
+            continue
+        for ee in (e, -e):
+            bad = _atom_probe(t, ee)
+            if bad is not None:
+                _poison()
+                return failure(sub, case, bad[0], bad[1], tags=tags + ["unit-occurs-twice"],
+                               behaviour="atom-changed-by-earlier-parse")
+    return None
+
+
+def _poison():
+    global _POISONED
+    _POISONED = True
+
+
+def _atom_probe(t, e):
+    """parse the single atom t^e and compare with the tables; None if right, else (expected, observed)"""
+    BaseUnits, _ = _lib()
+    if e == 0:
+        return None
+    atext = t + (units_ref.exp_text(e) or "1")
+    efac, _ = _REF.terms_factor([(t, e)])
+    if efac is None:
+        return None
+    edims = _REF.terms_dims([(t, e)])
+    o = outcome(BaseUnits, atext, timeout=5)
+    if o[0] == "err":
+        return dict(atom=atext, factor=efac), dict(atom=atext, error=o[1], message=o[2][:120])
+    big = _exponent_out_of_bounds(o[1])
+    if big:
+        return dict(atom=atext, factor=efac), dict(atom=atext, exponent=big)
+    od = outcome(lambda: units_ref.dims_from_library(o[1].dimensions.value()))
+    if od != ("ok", edims) or not units_ref.close(o[1].magnitude, efac, RTOL):
+        return (dict(atom=atext, factor=efac, dims=_dims_json(edims)),
+                dict(atom=atext, read_as=o[1].expression, magnitude=_short(o[1].magnitude)))
+    return None
+
+
+def _short(x):
+    try:
+        return float(x)
+    except Exception:
+        return str(type(x))
+
+
+def _exponent_out_of_bounds(b):
+    for k, v in b.baseunits.items():
+        try:
+            if abs(v.num) > EXP_BOUND or abs(v.den) > EXP_BOUND:
+                return "%s: %d digits / %d digits" % (k, len(str(abs(v.num))) if abs(v.num) < 10 ** 50 else 51,
+                                                      len(str(abs(v.den))) if abs(v.den) < 10 ** 50 else 51)
+        except Exception:
+            return None
     return None
 
 
@@ -440,9 +512,25 @@ def plan(tier, seed):
     return shards
 
 
+def _probe_set():
+    """fixed probe atoms (m with every exponent spelling): True if the library still reads them as the tables say"""
+    for e in EXPS:
+        if e in ("", "0"):
+            continue
+        if _atom_probe("m", _exp_of(e)) is not None:
+            return False
+    return True
+
+
 def _run(sh, case, nontrivial=True, sample=False):
+    if _POISONED:
+        sh.count("not-executed:library-state-corrupted")
+        return
     r = check_case(case)
     sh.evaluations += 1
+    if (sh.evaluations % 1000 == 0 or (r is not None and r != "skip")) and not _probe_set():
+        _poison()                 # after any failure and every 1000 cases: is the library still sane?
+        sh.count("probe-failed")
     if r == "skip":
         sh.count(case["sub"] + ":skipped-out-of-float-range")
         return
@@ -601,6 +689,12 @@ def finish(total, tier, seed):
         return dict(caps_hit=["only the table schema was checked: fixed alphabet unavailable"], exhaustive=False)
     if h.get("table:rows-validated", 0) < 200:
         raise HarnessError("table schema not validated: %r" % (h,))
+    if h.get("not-executed:library-state-corrupted") or h.get("probe-failed"):
+        if not (total.failures or total.known):
+            raise HarnessError("library state corrupted (probe set re-parsed differently) but no replayable case "
+                               "was identified: %r" % (h,))
+        return dict(caps_hit=["workers stopped executing cases after the library corrupted its own state: %d cases "
+                              "not executed" % h.get("not-executed:library-state-corrupted", 0)], exhaustive=False)
     if h.get("atom:accept-expected", 0) < 1000 or h.get("atom:reject-expected", 0) < 1000:
         raise HarnessError("vacuous atom sub-space: %r" % (h,))
     if h.get("insert:reject-expected", 0) < 1000:     # valid results of an insertion belong to the atom sub-space
